@@ -197,6 +197,14 @@ def install_shim() -> None:
     Errors.set_file = set_file  # type: ignore[method-assign]
 
 
+class OptionsRejected(Exception):
+    """process_options refused the flag list (usage error)."""
+
+
+class MypyCrash(Exception):
+    """The build ended with SystemExit (INTERNAL ERROR path): the run produced no verdict to judge."""
+
+
 def build_once(prog: dict[str, Any], main_text: str, extra_flags: list[str]) -> dict[str, Any]:
     """One real build in the current cwd (already materialized).  Returns messages + captured state."""
     from mypy import build as mb
@@ -208,18 +216,29 @@ def build_once(prog: dict[str, Any], main_text: str, extra_flags: list[str]) -> 
     _CAP["swallowed"] = []
     _CAP["once_dropped"] = []
     _CAP["file_options"] = {}
-    options = make_options(prog, extra_flags)
+    import contextlib
+    import io
+
+    sink_out, sink_err = io.StringIO(), io.StringIO()
+    try:
+        with contextlib.redirect_stdout(sink_out), contextlib.redirect_stderr(sink_err):
+            options = make_options(prog, extra_flags)
+    except SystemExit as e:
+        raise OptionsRejected(f"SystemExit({e.code}): {sink_err.getvalue()[-300:]}") from None
     with open("main", "w", encoding="utf8") as f:
         f.write(main_text)
     sources = [BuildSource("main", "__main__", main_text)]
     sys.path.insert(0, PLUGIN_DIR)
     blocker = False
     try:
-        res = mb.build(sources=sources, options=options, alt_lib_path="tmp")
+        with contextlib.redirect_stdout(sink_out), contextlib.redirect_stderr(sink_err):
+            res = mb.build(sources=sources, options=options, alt_lib_path="tmp")
         msgs = res.errors
     except CompileError as e:
         msgs = e.messages
         blocker = True
+    except SystemExit as e:
+        raise MypyCrash(f"SystemExit({e.code}): {sink_err.getvalue()[-400:]}") from None
     finally:
         if sys.path and sys.path[0] == PLUGIN_DIR:
             del sys.path[0]
@@ -266,8 +285,13 @@ def cli_status(prog: dict[str, Any], main_text: str, extra_flags: list[str]) -> 
     args += ["--show-error-codes", "--no-error-summary", "tmp/main.py"]
     cwd = os.getcwd()
     sys.path.insert(0, PLUGIN_DIR)
+    import contextlib
+    import io
+
+    stray_out, stray_err = io.StringIO(), io.StringIO()  # report_internal_error prints to the real streams
     try:
-        r = cli_inproc(args, cwd, fixtures=True)
+        with contextlib.redirect_stdout(stray_out), contextlib.redirect_stderr(stray_err):
+            r = cli_inproc(args, cwd, fixtures=True)
     finally:
         mb.build = orig  # type: ignore[assignment]
         if sys.path and sys.path[0] == PLUGIN_DIR:
@@ -278,7 +302,8 @@ def cli_status(prog: dict[str, Any], main_text: str, extra_flags: list[str]) -> 
             pass
     lines = r["stdout"].splitlines() + r["stderr"].splitlines()
     n_err = sum(1 for ln in lines if _ERR_LINE.search(ln))
-    crashed = "Traceback (most recent call last)" in r["stderr"] or "INTERNAL ERROR" in r["stderr"]
+    everything = r["stderr"] + r["stdout"] + stray_out.getvalue() + stray_err.getvalue()
+    crashed = "Traceback (most recent call last)" in everything or "INTERNAL ERROR" in everything
     usage = r["stderr"].startswith("usage: mypy")
     return {"status": r["status"], "n_error_lines": n_err, "blocker": seen["compile_error"], "crashed": crashed, "usage_error": usage,
             "lines": lines, "args": args}
